@@ -317,12 +317,16 @@ Section Build.
     b <- access T c AccCall ;;
     if kind_is T b KCall then Some (TCall f args kw) else None.
 
+  Definition refused (n : pystr) : bool := existsb (pystr_eqb n) (t_special_names T).
+
   Fixpoint build (p : pexp) : option term :=
     match p with
     | PVal v => Some (TConst v)
     | PTop l o => Some (TTop l o)
     | PItem o k => o' <- build o ;; k' <- build k ;; apply_access AccGetitem o' k'
-    | PAttr o n => o' <- build o ;; apply_access AccGetattr o' (TConst (LStr n))
+    | PAttr o n =>
+        (* __getattr__ raises AttributeError for the names listed in special_methods *)
+        if refused n then None else o' <- build o ;; apply_access AccGetattr o' (TConst (LStr n))
     | PBin op l r => l' <- build l ;; r' <- build r ;; apply_bin op l' r'
     | PUn op a => a' <- build a ;; apply_un op a'
     | PBuiltin f a ps =>
